@@ -395,6 +395,25 @@ func streamFacts(s *src, f *facts) {
 		}
 	}
 	f.b("stDoneClosedOncePerExit", once, s.pos(dec))
+	// the envelope is declared inside the decode loop: no member of one frame survives into the next (a frame
+	// that omits a member must not redeliver the previous one; a payload slice is never decoded over)
+	msgFresh := false
+	if dec != nil {
+		for _, l := range all[*ast.ForStmt](dec, nil) {
+			if len(s.callsTo(l, "decode")) == 0 {
+				continue
+			}
+			for _, st := range l.Body.List {
+				if d, ok := st.(*ast.DeclStmt); ok && strings.Contains(s.str(d), "Message[") {
+					msgFresh = true
+				}
+				if a, ok := st.(*ast.AssignStmt); ok && a.Tok.String() == ":=" && len(a.Rhs) == 1 && strings.Contains(s.str(a.Rhs[0]), "Message[") {
+					msgFresh = true
+				}
+			}
+		}
+	}
+	f.b("stMsgFreshPerIteration", msgFresh, s.pos(dec))
 	f.b("stDecoderExitsOnErr", exits, s.pos(dec))
 	// LinkMessage(ctx, writeReq, writeRes, readReq, readRes, …)
 	call := first(s.callsTo(lb, "LinkMessage"))
